@@ -3,7 +3,7 @@
 usage: python3 analysis/seedcheck.py <property id> <worktree> <name> [--props C02,C05]
 
  1. in the worktree (change applied): build, full nextest suite must pass, SEEDED/run_demo.sh must FAIL (non-zero);
- 2. with the change reverted (git stash): SEEDED/run_demo.sh must PASS; then restore;
+ 2. with the change reverted (git apply -R; `git stash` is shared between worktrees and must not be used): SEEDED/run_demo.sh must PASS; then restore;
  3. copy patch.diff, the demonstration and README into /verif/seeded/<name>/ and write meta.json;
  4. apply the patch to /repo, run the quick check of the property (and --props), undo it (git checkout -- .).
 """
@@ -39,6 +39,11 @@ def main(argv):
     if not os.path.exists(patch) or os.path.getsize(patch) == 0:
         print("no patch.diff")
         return 2
+    # the worktree must contain exactly the recorded patch
+    rc_d, cur = sh("git -C %s diff -- . ':!SEEDED'" % wt)
+    if cur.strip() != open(patch).read().strip():
+        print("worktree diff differs from SEEDED/patch.diff -- restore the worktree first")
+        return 2
     # 1. with the change
     rc, out = sh(["cargo", "build", "--offline"], cwd=wt, env=env)
     meta["ran"].append("cargo build --offline (with change): rc=%d" % rc)
@@ -54,11 +59,14 @@ def main(argv):
     rc_with, out_with = sh(["bash", os.path.join(sd, "run_demo.sh")], cwd=sd, env=env)
     meta["ran"].append("SEEDED/run_demo.sh (with change): rc=%d" % rc_with)
     # 2. without
-    sh(["git", "-C", wt, "stash", "-q"])
+    rc_r, out_r = sh(["git", "-C", wt, "apply", "-R", patch])
+    if rc_r != 0:
+        print("cannot revert patch: " + out_r)
+        return 2
     try:
         rc_wo, out_wo = sh(["bash", os.path.join(sd, "run_demo.sh")], cwd=sd, env=env)
     finally:
-        sh(["git", "-C", wt, "stash", "pop", "-q"])
+        sh(["git", "-C", wt, "apply", patch])
     meta["ran"].append("SEEDED/run_demo.sh (change reverted): rc=%d" % rc_wo)
     print("demo with change: rc=%d ; without: rc=%d" % (rc_with, rc_wo))
     if rc_with == 0 or rc_wo != 0:
